@@ -6,7 +6,7 @@ import random
 from lib import model
 from lib.framework import Prop, canon, res_of
 from oracle import rfc4512
-from props.schema_common import CHAIN_CMD, KINDS, U, parse_impl, to_list, to_obj
+from props.schema_common import CHAIN_CMD, KINDS, U, parse_impl, render_impl, to_list, to_obj
 
 WF_CMD = {"object_class": 320, "attribute_type": 321, "dit_content_rule": 322}
 
@@ -47,7 +47,7 @@ class C16(Prop):
         return [[CHAIN_CMD[c["kind"]], to_list(c["kind"], c["v"])]]
 
     def impl_run(self, c):
-        w = res_of(lambda: str(to_obj(c["kind"], c["v"])))
+        w = res_of(lambda: render_impl(c["kind"], c["v"]))
         if w[0] != 0:
             return [[w, []]]
         text = w[1]
